@@ -474,6 +474,44 @@ static void table_lifecycle_case(int native, unsigned rep) {
   case_end(checks > 0);
 }
 
+// the *_simple transforms keep one table per dimension behind the scenes: sequences of calls that change entry point and
+// dimension (returning to earlier ones: A, B, A), including the smallest and the largest dimension, must give the bits of
+// the table-based transform every time
+static void simple_sequence_case(unsigned seq) {
+  if (!case_begin("reim/cplx fft/ifft_simple|call sequences", "sequence=%u", seq)) return;
+  rng_t* r = crng();
+  static const uint64_t SM[] = {1, 2, 4, 16, 64, 1024, 32768, 65536};
+  // three dimensions dominate a sequence so that it keeps coming back to them
+  uint64_t dims[3];
+  for (int i = 0; i < 3; i++) dims[i] = SM[rng_u64(r) % ARRAY_LEN(SM)];
+  if (seq % 4 == 0) { dims[0] = 65536; dims[1] = 1; }
+  if (seq % 4 == 1) { dims[0] = 32768; dims[1] = 1; dims[2] = 65536; }
+  uint64_t calls = 0;
+  const int steps = 14;
+  for (int st = 0; st < steps; st++) {
+    const uint64_t m = (rng_u64(r) % 5) ? dims[rng_u64(r) % 3] : SM[rng_u64(r) % ARRAY_LEN(SM)];
+    const int layout = (int)(rng_u64(r) & 1), inverse = (int)(rng_u64(r) & 1);
+    if (m > 4096 && st > 5 && (seq & 3) > 1) continue;  // keep most sequences cheap
+    double* x = malloc(2 * m * 8);
+    double* y = malloc(2 * m * 8);
+    for (uint64_t i = 0; i < 2 * m; i++) x[i] = y[i] = rng_unit(r) * 2 - 1;
+    if (layout == L_REIM) { if (inverse) reim_ifft_simple((uint32_t)m, x); else reim_fft_simple((uint32_t)m, x); }
+    else { if (inverse) cplx_ifft_simple((uint32_t)m, x); else cplx_fft_simple((uint32_t)m, x); }
+    run_table(layout, inverse, get_table(layout, inverse, 1, m), y);
+    calls++;
+    if (memcmp(x, y, 2 * m * 8)) {
+      viol("differential", "%s_%s_simple(m=%" PRIu64 ") at step %d of a call sequence differs from the table-based transform", layout == L_REIM ? "reim" : "cplx", inverse ? "ifft" : "fft", m, st);
+      free(x); free(y);
+      break;
+    }
+    free(x);
+    free(y);
+  }
+  cnt("simple_sequence_calls", calls);
+  sample("%" PRIu64 " *_simple calls alternating entry points and dimensions (%" PRIu64 ", %" PRIu64 ", %" PRIu64 ", ...) equal to the table-based transforms", calls, dims[0], dims[1], dims[2]);
+  case_end(calls > 0);
+}
+
 void run_C06(void) {
   const int th = G.thorough;
   // must stay first: see concurrent_construction_case
@@ -494,6 +532,7 @@ void run_C06(void) {
   }
   for (int native = 1; native >= 0; native--)
     for (unsigned rep = 0; rep < (th ? 300u : 16u); rep++) table_lifecycle_case(native, rep);
+  for (unsigned seq = 0; seq < (th ? 600u : 48u); seq++) simple_sequence_case(seq);
   {
     static const char* const CNAMES[] = {"reim_fft", "reim_ifft", "cplx_fft", "cplx_ifft", "reim_fft_ref", "reim_ifft_ref", "cplx_fft_ref", "cplx_ifft_ref", "reim_fft_avx2_fma", "reim_ifft_avx2_fma", "cplx_fft_avx2_fma", "cplx_ifft_avx2_fma"};
     static const uint64_t CNS[] = {8, 64, 2048, 8192, 65536};
